@@ -343,6 +343,57 @@ static void run_agc(Json& js, vh::Rng& rng, long budget) {
     }
 }
 
+// X03: the gain loop sample by sample.  Averaging length 1 and constant-magnitude input per frame make the power estimate
+// known (|x|^2 + eps); the trace carries ln-quantities in micro-nepers and the ln of the gain applied to the last sample of
+// every frame.  Step sizes are reciprocals of small integers so that the fixed-point model can divide instead of multiply.
+static void run_agcloop(Json& js, vh::Rng& rng, long budget) {
+    static const int RS[] = {20, 25, 40, 50, 100, 200, 500};
+    const double U = 1e6;
+    for (long t = 0; t < budget; ++t) {
+        const double target = std::pow(10.0, -2 + 4 * rng.unif());
+        const double maxg = 10 + 80 * rng.unif();
+        const int rr = RS[rng.range(0, 6)], rf = (t % 3 == 0) ? RS[rng.range(0, 6)] : rr;
+        Agc agc(target, maxg, 1, 1.0 / rr, 1.0 / rf);
+        js.begin("AgcNew").num("unit", (long)U).num("target", (long)std::llround(std::log(target) * U))
+          .num("gmax", (long)std::llround(std::log(std::pow(10, maxg / 20)) * U)).num("rr", rr).num("rf", rf).num("g0", (long)U).end();
+        // each process() call carries 1..3 segments of constant magnitude (the level may switch inside a call); one AgcFrame
+        // per segment, with the gain applied to the segment's last sample
+        const int ncalls = (int)rng.range(3, 8);
+        for (int f = 0; f < ncalls; ++f) {
+            const int nseg = (int)rng.range(1, 3);
+            const bool cplx = rng.coin();
+            std::vector<int> ends;
+            std::vector<double> lev;
+            std::vector<cmplx_t> xs;
+            for (int sg = 0; sg < nseg; ++sg) {
+                const int n = (int)rng.range(1, 160);
+                const bool silent = rng.range(0, 5) == 0;
+                const double A = silent ? 0.0 : std::pow(10.0, -4 + 6 * rng.unif());
+                const double w = 0.3 + rng.unif();
+                for (int i = 0; i < n; ++i) {
+                    xs.push_back(cplx ? cmplx_t(A * std::cos(w * i), A * std::sin(w * i)) : cmplx_t((i % 2) ? A : -A, 0));
+                }
+                ends.push_back((int)xs.size() - 1);
+                lev.push_back(A);
+            }
+            arr_real gain;
+            if (cplx) {
+                gain = agc.process(arr_cmplx(xs)).gain;
+            } else {
+                arr_real xr((int)xs.size());
+                for (int i = 0; i < xr.size(); ++i) {
+                    xr[i] = xs[i].re;
+                }
+                gain = agc.process(xr).gain;
+            }
+            for (int sg = 0; sg < nseg; ++sg) {
+                js.begin("AgcFrame").num("lp", (long)std::llround(std::log(lev[sg] * lev[sg] + dsplib::eps()) * U))
+                  .num("n", ends[sg] - (sg ? ends[sg - 1] : -1)).num("gend", (long)std::llround(std::log(gain[ends[sg]]) * U)).end();
+            }
+        }
+    }
+}
+
 int main(int argc, char** argv) {
     const std::string mode = vh::arg(argc, argv, "--mode", "static");
     const long seed = std::atol(vh::arg(argc, argv, "--seed", "1"));
@@ -362,6 +413,8 @@ int main(int argc, char** argv) {
         run_step(js, rng, budget);
     } else if (mode == "agc") {
         run_agc(js, rng, budget);
+    } else if (mode == "agcloop") {
+        run_agcloop(js, rng, budget);
     } else {
         return 3;
     }
